@@ -286,6 +286,20 @@ Lemma removal_after_simplify_refuted :
   length (cnf_models_n (fst (edit_spec k8_cnf 4 [] [[-4]])) 4) = 4%nat.
 Proof. vm_compute. split; reflexivity. Qed.
 
+(* K38: an edit answered Recompile adjusts the stored list twice; CNF {-1 -2} over 2 features, edit
+   (remove {-1} - a clause that is not there -, add {2}): the first round shortens {-1 -2} to {-1},
+   the second round removes it.  One round would have been right. *)
+Lemma recompile_adjusts_twice_refuted :
+  recompile_stored [[-1; -2]] [[2]] [[-1]] = [[2]] /\
+  cnf_models_n (recompile_stored [[-1; -2]] [[2]] [[-1]]) 2 = [[1; 2]; [-1; 2]] /\
+  cnf_models_n (fst (edit_spec [[-1; -2]] 2 [[2]] [[-1]])) 2 = [[-1; 2]] /\
+  cnf_models_n (adjust_intern_cnf [[-1; -2]] [[2]] [[-1]]) 2 = [[-1; 2]].
+Proof. vm_compute. repeat split; reflexivity. Qed.
+
+(* with an empty stored list (early return of transform_to_cnf_from_starting_cnf) there is one round *)
+Lemma recompile_stored_empty a r : recompile_stored [] a r = adjust_intern_cnf [] a r.
+Proof. reflexivity. Qed.
+
 (* K23, BEFORE repair F14: retain(any(!=)) kept every clause when two different clauses were
    removed at once; the repaired retain step removes both *)
 Lemma multi_removal_refuted_v0 :
